@@ -357,7 +357,8 @@ Lemma elems_str_cons h r :
 Proof. unfold elems_str. destruct r as [|h2 r]; [reflexivity|]. cbn [map join_comma]. rewrite <- !app_assoc. reflexivity. Qed.
 
 Lemma members_str_cons m r :
-  members_str (m :: r) = fst m ++ colon :: le64 (snd m) ++ match r with [] => [close_br] | _ => comma :: members_str r end.
+  members_str (m :: r) =
+  le64 (key_len (fst m)) ++ fst m ++ colon :: le64 (snd m) ++ match r with [] => [close_br] | _ => comma :: members_str r end.
 Proof.
   unfold members_str, member_bytes. destruct r as [|m2 r]; cbn [map join_comma];
   rewrite <- !app_assoc; cbn [app]; rewrite <- ?app_assoc; reflexivity.
@@ -381,24 +382,32 @@ Proof.
     injection E2 as E2. apply IH; assumption.
 Qed.
 
-Definition member_ok (kh : bytes * N) : Prop := ~ In colon (fst kh) /\ (snd kh < 2 ^ 64)%N.
+(* a member is read back unambiguously: 8 bytes of key length, that many key
+   bytes (whatever they are), ':', 8 bytes of child hash.  The only conditions
+   are that both numbers fit their 8 bytes: hashes always do; a key's length
+   does for every string a Go program can hold *)
+Definition member_ok (kh : bytes * N) : Prop := (key_len (fst kh) < 2 ^ 64)%N /\ (snd kh < 2 ^ 64)%N.
+
+Lemma members_str_nil_cons m r : members_str [] <> members_str (m :: r).
+Proof.
+  rewrite members_str_cons. destruct (le64_cons (key_len (fst m))) as (a & t & Ea & Nt). rewrite Ea.
+  unfold members_str. cbn [map join_comma app]. intro E. injection E as _ E.
+  destruct t; [congruence|discriminate E].
+Qed.
 
 Lemma members_str_inj ms : forall ms', Forall member_ok ms -> Forall member_ok ms' ->
   members_str ms = members_str ms' -> ms = ms'.
 Proof.
   induction ms as [|[k h] r IH]; intros [|[k' h'] r'] F F' E.
   - reflexivity.
-  - exfalso. rewrite members_str_cons in E. cbn [fst snd] in E. inversion F' as [|? ? [Nk _] _]; subst. cbn [fst] in Nk.
-    destruct k' as [|c k'].
-    + cbn in E. injection E as E _. discriminate E.
-    + cbn in E. injection E as _ E. destruct k'; discriminate E.
-  - exfalso. rewrite members_str_cons in E. cbn [fst snd] in E.
-    destruct k as [|c k].
-    + cbn in E. injection E as E _. discriminate E.
-    + cbn in E. injection E as _ E. destruct k; discriminate E.
+  - exfalso. exact (members_str_nil_cons _ _ E).
+  - exfalso. symmetry in E. exact (members_str_nil_cons _ _ E).
   - rewrite !members_str_cons in E. cbn [fst snd] in E.
-    inversion F as [|? ? [Nk Hh] Fr]; inversion F' as [|? ? [Nk' Hh'] Fr']; subst. cbn [fst snd] in *.
-    apply split_at_colon in E as [E1 E2]; [|assumption|assumption]. subst k'.
+    inversion F as [|? ? [Lk Hh] Fr]; inversion F' as [|? ? [Lk' Hh'] Fr']; subst. cbn [fst snd] in *.
+    apply le64_app_inj in E as [E0 E]; [|assumption|assumption].
+    unfold key_len in E0. apply Nat2N.inj in E0.
+    apply app_inv_len in E as [E1 E2]; [|exact E0]. subst k'.
+    apply (f_equal (@tl N)) in E2. cbn [tl] in E2.
     apply le64_app_inj in E2 as [E2 E3]; [|assumption|assumption]. subst h'. f_equal.
     destruct r as [|m2 r], r' as [|m2' r']; try discriminate E3; [reflexivity|].
     injection E3 as E3. apply IH; assumption.
@@ -492,12 +501,15 @@ Lemma hash_lt v : (hash v < 2 ^ 64)%N.
 Proof. destruct v; cbn [hash]; try apply fnv_lt. vm_compute; reflexivity. Qed.
 
 (* side conditions of [preimage_injective] for the shallow view of a
-   well-formed value: dates from year 1 on with an int16 zone offset, and
-   object keys without ':' *)
+   well-formed value.  Both say that a number fits the fixed-width field the
+   code writes it into, i.e. that the model value is one a Go program can hold:
+   dates from year 1 on with an int16 zone offset (time.Time's binary form),
+   and object keys shorter than 2^64 bytes (uint64(len(key)); a Go string's
+   length is an int).  Nothing is asked of the bytes a key contains. *)
 Definition top_ok (v : value) : Prop :=
   match v with
   | VDate s _ o => (0 <= s + unix_to_internal < 2 ^ 63) /\ (- 2 ^ 15 <= o < 2 ^ 15)
-  | VObj m => Forall (fun kv => ~ In colon (fst kv)) m
+  | VObj m => Forall (fun kv => (key_len (fst kv) < 2 ^ 64)%N) m
   | _ => True
   end.
 
@@ -521,25 +533,11 @@ Proof.
   intros Wa Wb Ta Tb Sa Sb E. apply preimage_injective; [apply (shallow_ok a)|apply (shallow_ok b)|]; assumption.
 Qed.
 
-(* --------------------------------------------- the delimiter collision *)
-Lemma collide_preimage v w sa sb :
-  shallow_of (collide_left v w) = Some sa -> shallow_of (collide_right v w) = Some sb ->
-  preimage sa = preimage sb.
+(* ----------------------------- the former delimiter collision is gone *)
+Lemma collide_key_len h : key_len (collide_key h) = 12%N.
 Proof.
-  unfold collide_left, collide_right, collide_key. cbn [shallow_of map fst snd]. intros Ea Eb.
-  injection Ea as Ea. injection Eb as Eb. subst sa sb.
-  unfold sort_members. cbn [isort insert_sorted hkey_leb fst lexcmp bs N_of_ascii].
-  change (N.compare 97 98) with Lt. cbv iota.
-  unfold preimage. cbn [sh_name sh_content map join_comma member_bytes fst snd].
-  reflexivity.
-Qed.
-
-Lemma collide_hash v w : hash (collide_left v w) = hash (collide_right v w).
-Proof.
-  assert (P := collide_preimage v w _ _ eq_refl eq_refl).
-  change (hash (collide_left v w)) with (fnv (preimage (ShObj (sort_members (map hmember [(bs "a", v); (bs "b", w)]))))).
-  change (hash (collide_right v w)) with (fnv (preimage (ShObj (sort_members (map hmember [(collide_key (hash v), w)]))))).
-  cbn [shallow_of collide_left collide_right] in P. unfold hmember. rewrite P. reflexivity.
+  unfold key_len, collide_key. rewrite app_length. cbn [length]. rewrite app_length.
+  unfold le64. rewrite le_bytes_length. reflexivity.
 Qed.
 
 Lemma collide_not_struct_eq v w : ~ struct_eq (collide_left v w) (collide_right v w).
@@ -549,15 +547,32 @@ Proof.
   rewrite !isort_length in H. discriminate H.
 Qed.
 
-Lemma object_key_delim_collision :
-  exists a b sa sb, wfb a = true /\ wfb b = true /\ ~ struct_eq a b /\
-    shallow_of a = Some sa /\ shallow_of b = Some sb /\ preimage sa = preimage sb /\ hash a = hash b.
+Lemma sort_members_ok ms : Forall member_ok ms -> Forall member_ok (sort_members ms).
+Proof. intro F. unfold sort_members. eapply Permutation_Forall; [apply isort_perm|exact F]. Qed.
+
+(* {a: v, b: w} and {"a:" ++ le64 (hash v) ++ ",b": w}: different values, and now
+   different byte strings — for all v, w, well-formed or not *)
+Lemma collide_preimage_differs v w sa sb :
+  shallow_of (collide_left v w) = Some sa -> shallow_of (collide_right v w) = Some sb ->
+  preimage sa <> preimage sb.
 Proof.
-  exists (collide_left (VInt 5578) (VInt 2)), (collide_right (VInt 5578) (VInt 2)).
-  eexists; eexists. split; [vm_compute; reflexivity|]. split; [vm_compute; reflexivity|].
-  split; [apply collide_not_struct_eq|]. split; [reflexivity|]. split; [reflexivity|].
-  split; [apply (collide_preimage (VInt 5578) (VInt 2)); reflexivity|apply collide_hash].
+  unfold collide_left, collide_right. cbn [shallow_of map fst snd]. intros Ea Eb E.
+  injection Ea as Ea. injection Eb as Eb. subst sa sb.
+  apply preimage_injective in E.
+  - apply (f_equal (fun s => match s with ShObj ms => length ms | _ => O end)) in E.
+    unfold sort_members in E. rewrite !isort_length in E. discriminate E.
+  - cbn [sh_ok]. apply sort_members_ok.
+    repeat constructor; cbn [fst snd]; try apply hash_lt; vm_compute; reflexivity.
+  - cbn [sh_ok]. apply sort_members_ok.
+    repeat constructor; cbn [fst snd]; [rewrite collide_key_len; reflexivity|apply hash_lt].
 Qed.
+
+(* the recorded witness, evaluated: the two hashes differ *)
+Lemma collide_witness_hash_differs :
+  hash (collide_left (VInt 5578) (VInt 2)) <> hash (collide_right (VInt 5578) (VInt 2)) /\
+  collect_key (bs "k") (collide_left (VInt 5578) (VInt 2)) <> collect_key (bs "k") (collide_right (VInt 5578) (VInt 2)) /\
+  map_hash [(bs "a", VInt 5578); (bs "b", VInt 2)] <> map_hash [(collide_key (hash (VInt 5578)), VInt 2)].
+Proof. repeat split; intro H; vm_compute in H; discriminate H. Qed.
 
 (* --------------------------------------------------- exact de-duplication *)
 From Coq Require Import SetoidList.
